@@ -17,12 +17,12 @@ macro_rules! props {
             let mult: u64 = match id {
                 "C01" => 20, "C02" => 12, "C03" => 8, "C04" => 3, "C05" => 8, "C06" => 8, "C07" => 30, "C08" => 6,
                 "C09" => 2, "C10" => 10, "C11" => 12, "C12" => 8, "C13" => 30, "C14" => 2, "C15" => 16, "C16" => 20,
-                "C17" => 20, "C18" => 30, "C19" => 20, "C20" => 4, _ => 1,
+                "C17" => 20, "C18" => 12, "C19" => 20, "C20" => 4, _ => 1,
             };
             // thorough tier: sized so that a check takes roughly 5-20 min on 16 cores
             let tmult: u64 = match id {
                 "C01" => 15, "C04" => 2, "C05" => 3, "C07" => 8, "C08" => 3, "C10" => 6, "C11" => 6, "C13" => 12,
-                "C15" => 5, "C16" => 15, "C17" => 40, "C18" => 12, "C19" => 25, "C20" => 2, _ => 1,
+                "C15" => 5, "C16" => 15, "C17" => 20, "C18" => 12, "C19" => 25, "C20" => 2, _ => 1,
             };
             for s in d.subs.iter_mut() {
                 if let crate::runner::Kind::Tape { quick, thorough, .. } = &mut s.kind {
